@@ -14,12 +14,15 @@ def dispatch(prop):
     if prop in ('C11', 'C12'):
         import p_text
         return p_text.check
-    if prop in ('C05', 'C08', 'C10', 'C13', 'C14'):
+    if prop in ('C05', 'C08', 'C10', 'C13', 'C14', 'C15'):
         import p_tool
         return p_tool.check
     if prop in ('C09', 'C16', 'C17'):
         import p_cmd
         return p_cmd.check
+    if prop == 'C19':
+        import p_names
+        return p_names.check
     if prop == 'C07':
         import p_dist
         return p_dist.check
